@@ -93,6 +93,16 @@ pub fn build_kernel(plan: &Plan) -> Kernel {
         let p = k.proc_mut(PARENT_PID);
         p.cred = plan.parent.cred;
         p.disp[SIGPIPE as usize] = plan.parent.sigpipe;
+        if plan.parent.sigterm_ignored {
+            p.disp[libc::SIGTERM as usize] = Disp::Ignore;
+        }
+    }
+    for fd in 0..3 {
+        if plan.parent.nonblock_std & (1 << fd) != 0 {
+            if let Some(d) = k.desc_of(PARENT_PID, fd) {
+                k.descs[d].status = libc::O_NONBLOCK;
+            }
+        }
     }
     k.par_mask[0] = plan.parent.sigmask;
     for fd in 0..3 {
@@ -106,7 +116,33 @@ pub fn build_kernel(plan: &Plan) -> Kernel {
     k
 }
 
+extern "C" {
+    static mut environ: *mut *mut libc::c_char;
+}
+/// libc's own array while ours (with the entries std::env cannot express) is installed
+static mut LIBC_ENVIRON: *mut *mut libc::c_char = std::ptr::null_mut();
+
+/// The parent's environment block as it is, entry by entry.
+pub fn raw_environ() -> Vec<Vec<u8>> {
+    let mut v = vec![];
+    unsafe {
+        let mut p = environ;
+        while !p.is_null() && !(*p).is_null() {
+            v.push(std::ffi::CStr::from_ptr(*p).to_bytes().to_vec());
+            p = p.add(1);
+        }
+    }
+    v
+}
+
 fn set_parent_env(plan: &Plan) {
+    // (only the main thread of the worker is running here)
+    unsafe {
+        if !LIBC_ENVIRON.is_null() {
+            environ = LIBC_ENVIRON;
+            LIBC_ENVIRON = std::ptr::null_mut();
+        }
+    }
     // the real process environment is what the library sees
     let keys: Vec<_> = std::env::vars_os().map(|(k, _)| k).collect();
     for k in keys {
@@ -118,6 +154,24 @@ fn set_parent_env(plan: &Plan) {
     if let Some(raw) = &plan.parent.path_raw {
         use std::os::unix::ffi::OsStringExt;
         std::env::set_var("PATH", std::ffi::OsString::from_vec(raw.clone()));
+    }
+    if plan.parent.env_odd {
+        // a block as execve() accepts it but setenv() never produces it: one name twice (getenv()
+        // finds the first) and an entry without '='
+        unsafe {
+            let mut v: Vec<*mut libc::c_char> = vec![];
+            let mut p = environ;
+            while !p.is_null() && !(*p).is_null() {
+                v.push(*p);
+                p = p.add(1);
+            }
+            v.insert(0, c"SUBSIM_DUP=first".as_ptr() as *mut libc::c_char);
+            v.insert(v.len() / 2, c"SUBSIM_BARE".as_ptr() as *mut libc::c_char);
+            v.push(c"SUBSIM_DUP=second".as_ptr() as *mut libc::c_char);
+            v.push(std::ptr::null_mut());
+            LIBC_ENVIRON = environ;
+            environ = Box::leak(v.into_boxed_slice()).as_mut_ptr();
+        }
     }
 }
 
